@@ -52,14 +52,15 @@ func TestMain(m *testing.M) {
 }
 
 type tcase struct {
-	Scripts map[string]string `json:"scripts"` // workspace content (name -> text); the script to run is Name
-	Other   map[string]string `json:"other_files,omitempty"`
-	Name    string            `json:"name"`
-	Mode    string            `json:"mode"`  // workspace | file-bare | file-path
-	Input   string            `json:"input"` // text | lineprotocol | none
-	Data    string            `json:"data"`
-	Format  string            `json:"format"` // json | lineprotocol
-	Missing bool              `json:"selected_script_missing,omitempty"`
+	Scripts  map[string]string `json:"scripts"` // workspace content (name -> text); the script to run is Name
+	Other    map[string]string `json:"other_files,omitempty"`
+	Name     string            `json:"name"`
+	Mode     string            `json:"mode"`  // workspace | file-bare | file-path
+	Input    string            `json:"input"` // text | lineprotocol | none
+	Data     string            `json:"data"`
+	Format   string            `json:"format"` // json | lineprotocol
+	Missing  bool              `json:"selected_script_missing,omitempty"`
+	Symlinks bool              `json:"scripts_are_symlinks,omitempty"`
 }
 
 type libOut struct {
@@ -152,8 +153,16 @@ func runBinary(c *tcase) (stdout string, before, after time.Time, err error) {
 	defer os.RemoveAll(dir)
 	ws := filepath.Join(dir, "ws")
 	_ = os.MkdirAll(ws, 0o755)
+	store := filepath.Join(dir, "store")
+	_ = os.MkdirAll(store, 0o755)
 	for n, s := range c.Scripts {
 		if c.Mode != "workspace" && n != c.Name {
+			continue
+		}
+		if c.Symlinks {
+			// the script is a symbolic link to a regular file kept elsewhere (a mounted configuration)
+			_ = os.WriteFile(filepath.Join(store, n), []byte(s), 0o644)
+			_ = os.Symlink(filepath.Join(store, n), filepath.Join(ws, n))
 			continue
 		}
 		_ = os.WriteFile(filepath.Join(ws, n), []byte(s), 0o644)
@@ -420,6 +429,7 @@ var failingRun = []string{"x = 1 + \"a\"", "l = [1]\ny = l[5]", "z = 0\nq = 1 / 
 var failingLoad = []string{"nosuch()", "add_key()", "cast(a, \"zzz\")", "x = = 1", "break", "grok(_, \"%{NOSUCH}\")"}
 
 var lpInputs = []string{
+	"m,k=a k=1i,f=2i 1609459200000000001\n", "m,host=h1,n=tagn n=3i,host=\"fieldhost\" 1609459200000000002\n",
 	"cpu,host=h1 usage=1.5,n=3i 1600000000000000000\nthis line is garbage\n", "garbage first\ncpu,host=h1 usage=2.5,n=3i 1600000000000000001\n", "cpu,host=h1 usage=1.5 1\ncpu,host=h2 usage= 2\nmem used=1i 3\n", "cpu usage=1i 1\n\n\x00\n",
 	"cpu,host=h1 msg=\"a & b < c > \\\\u0026\",n=3i 1600000000000000000\n",
 	"", "not line protocol at all", "cpu,host=h1", "cpu usage=", "# only a comment\n",
@@ -435,7 +445,7 @@ var lpInputs = []string{
 	"ev time=5i\n",
 }
 
-var textInputs = []string{"{\"url\":\"/q?a=1\\u0026b=2\",\"t\":\"\\u003cb\\u003e\"}", "a & b < c > d \\u0026 \\\\u003e", "tab\there \"quoted\" back\\slash \x7f \u2028 \u00e9 \U0001F600", "\\n literal backslash-n and a real one:\n.", "</script><!-- & -->","x\r\ny", "line1\r\nline2\r\n", "hello world", "two words here", "", "  padded  ", "héllo wörld", "line1\nline2", "42"}
+var textInputs = []string{"{\"url\":\"/q?a=1\\u0026b=2\",\"t\":\"\\u003cb\\u003e\"}", "a & b < c > d \\u0026 \\\\u003e", "tab\there \"quoted\" back\\slash \x7f \u2028 \u00e9 \U0001F600", "\\n literal backslash-n and a real one:\n.", "</script><!-- & -->", "x\r\ny", "line1\r\nline2\r\n", "hello world", "two words here", "", "  padded  ", "héllo wörld", "line1\nline2", "42"}
 
 func genCase(t *rapid.T) (*tcase, bool, []string) {
 	c := &tcase{Scripts: map[string]string{}, Other: map[string]string{}}
@@ -560,6 +570,10 @@ func genCase(t *rapid.T) (*tcase, bool, []string) {
 		}
 	}
 	c.Format = rapid.SampledFrom([]string{"json", "lineprotocol"}).Draw(t, "format")
+	if rapid.IntRange(0, 4).Draw(t, "symlinks") == 0 {
+		c.Symlinks = true
+		labels = append(labels, "workspace/scripts-are-symlinks")
+	}
 	return c, nontrivial, labels
 }
 
